@@ -72,6 +72,20 @@ Theorem C08_script_characterisation_stream :
 Proof. exact script_stream_lemma. Qed.
 Print Assumptions C08_script_characterisation_stream.
 
+(* 2''. Fragmentation independence with flush ticks at any positions: the same text between the
+   same ticks (fss = the runs of reads between consecutive flushes, last = the reads before the
+   close), cut into reads in any two ways, gives the same records. *)
+Theorem C08_frag_independent_between_ticks :
+  forall (test : bytes -> bool) (min_buf limit b : nat) (fss1 fss2 : list (list bytes)) (last1 last2 : list bytes),
+  test [] = false -> 1 <= limit -> 2 * b + 1 + limit <= Nat.max min_buf (limit * 3) ->
+  map (@concat N) fss1 = map (@concat N) fss2 -> concat last1 = concat last2 ->
+  seg_bound test b (concat (map (@concat N) fss1) ++ concat last1) ->
+  exists st1 st2 out,
+    run_ops test (script_of fss1 ++ map OpRead last1 ++ [OpFlushAll]) (new_mlr min_buf limit) [] = Ok (st1, out) /\
+    run_ops test (script_of fss2 ++ map OpRead last2 ++ [OpFlushAll]) (new_mlr min_buf limit) [] = Ok (st2, out).
+Proof. exact frag_independent_ticks_lemma. Qed.
+Print Assumptions C08_frag_independent_between_ticks.
+
 (* 3. Flush-timing independence for streams of single-line records: if every line is a
    non-empty record start of at most b bytes, then EVERY interleaving of reads (any
    fragmentation) and flushes (any positions, any number), followed by the close, delivers
